@@ -8,6 +8,15 @@
 (*          "reader"   spikeglx.Reader(file, sort).geometry, raw_channel_order *)
 (*          "th"       neuropixel.trace_header(version, nshank)             *)
 (*          "sth"      neuropixel.split_trace_header(trace_header, split)   *)
+(*          "dflt"     a canonical layout obtained another way: metadata    *)
+(*                     without a site table through geometry_from_meta /    *)
+(*                     read_geometry / Reader, a Reader on a flat binary,   *)
+(*                     trace_header with another spelling of the version,   *)
+(*                     or a second look at a header after the caller wrote  *)
+(*                     into what an earlier call returned                   *)
+(*          "blk"      the public building blocks called directly on the    *)
+(*                     table: rc2xy, xy2rc, adc_shifts(version, nc)         *)
+(* A site of T.sites may carry its draw flag as a fourth component.         *)
 (*     hdr  rows <<shank,row,col,x,y,adc,shift numerator,ind,flag>>         *)
 (* One step per observation: impl = first observation that differs from    *)
 (* the implementation layer of lib/Geometry.tla (-> SPEC-DRIFT), prop =     *)
@@ -52,7 +61,7 @@ EntriesOK ==
           /\ Len(T.entries.geom) = Len(S)
           /\ \A i \in 1..Len(S) : LET e == G!GeomMapEntry(Gen, S[i]) IN T.entries.geom[i] = <<e.shank, e.x, e.y, e.flag>>
     /\ \A i \in 1..Len(S) : G!OnGrid(Gen, S[i])
-    /\ \A i, j \in 1..Len(S) : i # j => S[i] # S[j]
+    /\ \A i, j \in 1..Len(S) : i # j => G!Site3(S[i]) # G!Site3(S[j])
 
 Init == /\ tid \in 1..Len(Traces)
         /\ pos = 0 /\ prop = "" /\ pc = "run"
@@ -64,8 +73,10 @@ ImplClauses(o, H) ==
     IF FromMeta(o)
     THEN << <<H = G!Header(Gen, o.enc, S, o.sort, o.split), "Header">>,
             <<o.idx = G!HeaderIndex(Gen, o.enc, S, o.sort, o.split), "Index">> >>
-    ELSE IF o.api = "th"
+    ELSE IF o.api \in {"th", "dflt"}
     THEN << <<S = G!DenseLayout(Gen, T.dense), "DenseLayout">>, <<H = G!TraceHeader(Gen, T.dense), "TraceHeader">> >>
+    ELSE IF o.api = "blk"
+    THEN << <<H = G!Header(Gen, "shank", S, FALSE, -1), "Blocks">> >>
     ELSE << <<H = G!SplitHeader(G!TraceHeader(Gen, T.dense), o.split), "SplitHeader">> >>
 
 PropClauses(o, H) ==
@@ -80,7 +91,11 @@ PropClauses(o, H) ==
                  \/ G!SplitP(Hdr(Find(o.api, o.enc, FALSE, -1)), o.split, H), "SplitRestriction">>,
             <<o.split # -1 \/ o.sort \/ Len(H) # 384
                  \/ G!AdcEvenP(Gen, [c \in 1..Len(H) |-> H[c].adc], [c \in 1..Len(H) |-> H[c].shift]), "AdcEven">> >>
-    ELSE IF o.api = "th"
+    ELSE IF o.api = "blk"
+    THEN << <<G!SitesOnceP(S, -1, H), "SitesOnce">>,
+            <<G!DescribesP(Gen, S, -1, H), "Describes">>,
+            <<G!UnsortedP(H, [i \in 1..Len(H) |-> i - 1]), "Unsorted">> >>
+    ELSE IF o.api \in {"th", "dflt"}
     THEN << <<G!SitesOnceP(S, -1, H), "SitesOnce">>,
             <<G!DescribesP(Gen, S, -1, H), "Describes">>,
             <<G!UnsortedP(H, [i \in 1..Len(H) |-> i - 1]), "Unsorted">>,
